@@ -21,7 +21,7 @@ import itertools
 
 import sympy as sp
 
-from ..absint import ExcVal, Obj, Opaque, Raised, UnknownBool
+from ..absint import opt_args, ExcVal, Obj, Opaque, Raised, UnknownBool
 from ..alg import decide_zero
 from ..core import AnalysisError, Ctx, Finding
 from ..domain import make_interp
@@ -119,7 +119,7 @@ def run_point(ctx: Ctx, model, which):
     def root(I, a, k, n):
         fun, x0 = a[0], a[1]
         unk = Vec([S(f"u{j}", real=True) for j in range(NC - 1)])
-        cap["residual"] = I.call_value(fun, [unk], {}, n)
+        cap["residual"] = I.call_value(fun, [unk] + opt_args(k), {}, n)
         cap["x0"] = x0
         cap["method"] = k.get("method")
         cap["log_at_solve"] = list(log)
